@@ -701,7 +701,7 @@ def run_cases(ctx: Ctx, n_group, n_alg):
         else:
             case = make_alg_case(rng, name, dtype, ci)
             eval_alg_case(ctx, case, pend)
-        if ci % 10 == 3 and int(math.prod(case["shape"])) >= 2:
+        if ci % (10 if ctx.quick else 30) == 3 and int(math.prod(case["shape"])) >= 2:
             check_views_and_batch(ctx, case)
         if ci % 40 == 0:
             ctx.sample({k: case[k] for k in ("kind", "type", "dtype", "shape")} | {"regimes": case["tags"][:4],
